@@ -204,10 +204,10 @@ PROPS = {
     ),
     "C10": dict(
         level="model_checking",
-        level_text="Unbounded deductive proofs (Verus) on the real parse_dtls_message_handshake (12-byte header fields verbatim, take(fragment_length), is_fragment <=> offset>0 or fragment_length<length, Fragment of exactly fragment_length bytes, body table, Switch otherwise), parse_dtls_plaintext_record (13-byte header, cap, Incomplete iff truncated with exact Needed, glue), parse_dtls_record_with_header and parse_dtls_plaintext_records (explicit loops). The 13-byte header decode is a full-domain Kani proof; the body parsers (ClientHello with cookie, HelloVerifyRequest, fragment) are Kani contract harnesses, bounded in input length.",
+        level_text="Unbounded deductive proofs (Verus) on the real parse_dtls_message_handshake (12-byte header fields verbatim, take(fragment_length), is_fragment <=> offset>0 or fragment_length<length, Fragment of exactly fragment_length bytes, body table, Switch otherwise), parse_dtls_plaintext_record (13-byte header, cap, Incomplete iff truncated with exact Needed, glue), parse_dtls_record_with_header and parse_dtls_plaintext_records (explicit loops). The 13-byte header decode is a full-domain Kani proof; the body parsers ClientHello with cookie (unit hellos: every field at its offset incl. the cookie between session id and cipher suites, all rejection rules, every cut-off Incomplete) and HelloVerifyRequest (unit bodies2) are proved unbounded in Verus as well and cross-checked by Kani contract harnesses on the compiled code, bounded in input length.",
         level_note="Trusted: nom shims (be_u8/16/24, take, map, map_parser, complete, many1); DTLS body parsers uninterpreted in Verus; R9 (closure signature + ensures), R10 (constructor eta-expanded into a closure with its trivial contract); ServerHello/Certificate/ServerDone/ClientKeyExchange bodies are the C04 parsers (checked there).",
         technique="contract-based deductive verification: Verus on extracted dispatcher/record glue + Kani full-domain header harness and leaf harnesses",
-        verus=["dtls", "dtls_many", "bodies2"],
+        verus=["dtls", "dtls_many", "bodies2", "hellos"],
         standins=[dict(name="framing_boundaries", kind="bounded-execution", bound="declared lengths {0,1,2,3,16383..16385,16639..16641,32768,65535} x 3 content types x 8 prefix cuts, TLS raw/encrypted/plaintext/tls_parser + DTLS record (372 cases)", payload={"framing_boundary_check": 1})],
         kani=[dict(quick=["fd_dtls_header", "fd_dtls_ccs_alert", "fd_dtls_is_fragment", "leaf_dtls_hvr", "leaf_dtls_fragment", "mod_dtls_client_hello", "shim_be", "shim_take", "shim_map_parser", "shim_many1"], timeout=900)],
         explanation="see level_text",
